@@ -27,6 +27,7 @@ rm "$pkgdir/zz_demo_test.go"
 cd /verif
 chk=$(VERIF_REPO="$scr" ./check "$prop" quick 2>&1)
 nv=$(echo "$chk" | grep -c '^VIOLATION')
+echo "$chk" | grep -q ' quick: [0-9]* obligations' || { echo "CHECK-ERROR $name: $(echo "$chk" | tail -2)"; nv=-1; }
 obl=$(echo "$chk" | grep '^VIOLATION' | sed 's/.*obligation=//' | head -5 | tr '\n' ';')
 python3 - "$out" "$name" "$prop" "$clean" "$patched" "$build" "$tests" "$nv" "$obl" "$pkgs" <<'PY'
 import json,sys
